@@ -7,6 +7,7 @@ import z3
 
 # --------------------------------------------------------------------------- sorts
 _REF_SORT = [None]
+_ENUMS = {}
 _ANY_SORT = [None]
 
 
@@ -16,8 +17,9 @@ def reset_sorts(finite_refs=None):
     if finite_refs is None:
         _REF_SORT[0] = (z3.DeclareSort('Ref'), None)
     else:
-        srt, consts = z3.EnumSort('Ref', ['r%d' % i for i in range(finite_refs)])
-        _REF_SORT[0] = (srt, consts)
+        if finite_refs not in _ENUMS:
+            _ENUMS[finite_refs] = z3.EnumSort('RefE%d' % finite_refs, ['r%d_%d' % (finite_refs, i) for i in range(finite_refs)])
+        _REF_SORT[0] = _ENUMS[finite_refs]
     _ANY_SORT[0] = z3.DeclareSort('Any')
     _FN.clear()
     _FRESH[0] = 0
@@ -49,6 +51,8 @@ def fresh(prefix, sort):
 
 
 def null():
+    if _REF_SORT[0][1] is not None:
+        return _REF_SORT[0][1][0]      # finite-scope mode: the first enumeration value plays None
     return z3.Const('null', RefSort())
 
 
